@@ -46,14 +46,21 @@ Expected(P, q) ==
         nxt == TLCEval([i \in 1..Len(P) |-> IF i \in live THEN SeqToSet(InsNext(P, i)) ELSE {}])
         reachTab == ReachSets(1..Len(P), nxt)
         reach == IF start = 0 \/ start \notin live THEN {} ELSE reachTab[start]
-        \* pattern occurs at i: consecutive in straight-line code (every matched instruction but the last has exactly
-        \* one successor, the next matched one), identical instructions
-        occurs(i) == /\ i + Len(pat) - 1 <= Len(P)
-                     /\ \A k \in 1..Len(pat) : P[i + k - 1] = pat[k]
-                     /\ \A k \in 1..(Len(pat) - 1) : InsNext(P, i + k - 1) = << i + k >>
+        \* pattern occurs at i: a chain of instructions with identical text in straight-line code - every matched
+        \* instruction but the last is not a conditional branch and has exactly one successor in the instruction
+        \* graph, the next matched one (an unconditional `b` is followed to its label: consecutive in execution)
+        nx(c) == IF c = 0 THEN 0
+                 ELSE IF P[c].op \notin {"bz", "bnz", "switch", "match"} /\ Len(InsNext(P, c)) = 1 THEN InsNext(P, c)[1] ELSE 0
+        chain(i) == LET c2 == nx(i)
+                        c3 == nx(c2)
+                        c4 == nx(c3)
+                        c5 == nx(c4)
+                    IN << i, c2, c3, c4, c5 >>
+        occurs(i) == /\ Len(pat) <= 5
+                     /\ \A k \in 1..Len(pat) : chain(i)[k] # 0 /\ P[chain(i)[k]] = pat[k]
         starts == { i \in reach : occurs(i) }
         onPath == { i \in reach : \E s \in starts : s \in reachTab[i] }
-    IN [ matches |-> { [k \in 1..Len(pat) |-> s + k - 1] : s \in starts }, starts |-> starts, onPath |-> onPath ]
+    IN [ matches |-> { [k \in 1..Len(pat) |-> chain(s)[k]] : s \in starts }, starts |-> starts, onPath |-> onPath ]
 
 V(ok, clause, obs, exp) == IF ok THEN << >> ELSE << [clause |-> clause, obs |-> ToJson(obs), exp |-> ToJson(exp)] >>
 
